@@ -6,7 +6,7 @@
    index entries after the valid ones): all theorems are unbounded in sizes and chunk sizes. *)
 From Coq Require Import ZArith List Bool.
 From EV Require Import Res Arr Transform TransformSpec TransformBase TransformCat TransformLeaky TransformFixed
-  TransformNum TransformMisc TransformTs.
+  TransformNum TransformMisc TransformTs TransformTrim TransformBool TransformDate.
 Import ListNotations.
 Open Scope Z_scope.
 
@@ -144,5 +144,115 @@ Proof.
 Qed.
 Print Assumptions companions_aligned_date.
 
-(* NOT proved (correspondence only, exhaustive over the literal tables): bool_transform_table
-   (numeric_bool_transform = spec_bool); strptime_ymd against a date printer. *)
+(* 7. booleans: NumericImporter('bool') = numeric_bool_transform per chunk (the two blank-trimming while loops,
+      the literal tables for trimmed lengths 1..5, the three validation modes with their `break`s, the two
+      exception codes 1 = "can not be empty in strict mode" / 2 = "can not be parsed") stores exactly what
+      `spec_bool` prescribes: case-folded literal lists 1/y/t/on/yes/true and 0/n/f/no/off/false after trimming
+      blanks (byte 32 only), invalid value + false flag or the importer's exception, first offending cell first.
+      Every cell text (any list of integers), every mode number (numbers other than 0/1 behave as relaxed in
+      both), every chunking, every buffer layout.  Full. *)
+Theorem bool_transform_table : forall inv mode cc off slack tail, 0 <= off ->
+  bool_import inv mode (map (mk_chunk off slack tail) cc) = spec_bool mode inv (concat cc).
+Proof. exact bool_transform_table_proof. Qed.
+Print Assumptions bool_transform_table.
+
+Example bool_table_example :
+  spec_bool MODE_RELAXED 0 [[32; 89; 69; 115; 32]; [79; 102; 70]; [32; 32]; [121; 101]; [84]] = Ok ([1; 0; 0; 0; 1], [1; 1; 0; 0; 1]) /\
+  spec_bool MODE_ALLOW_EMPTY 1 [[]; [110; 79]] = Ok ([1; 0], [0; 1]) /\
+  spec_bool MODE_ALLOW_EMPTY 1 [[]; [50]] = Raise E_NumParse /\ spec_bool MODE_STRICT 1 [[49]; [32]] = Raise E_NumEmpty.
+Proof. vm_compute. repeat split; reflexivity. Qed.
+
+(* the same fact read at the kernel: on the arrays the importer allocates, numeric_bool_transform returns
+   the message code 0 / 1 / 2 of the table, and when it is 0 `elements` and `validity` are the table's columns *)
+Theorem bool_kernel_table : forall inv mode off slack tail cells, 0 <= off ->
+  exists el va,
+    numeric_bool_transform (mk_chunk off slack tail cells) inv mode (zeros (len cells)) (repeat 1 (length cells))
+    = Ok (match spec_bool mode inv cells with Raise c => c - 100 | _ => 0 end, el, va) /\
+    forall vals flags, spec_bool mode inv cells = Ok (vals, flags) -> el = vals /\ va = flags.
+Proof. exact bool_kernel_table_proof. Qed.
+Print Assumptions bool_kernel_table.
+
+(* 8. dates.  (a) chunk independence: DateImporter / DateTimeImporter over ANY chunking and buffer layout
+      = the row function (strip, parse, timestamp, day string, flag) mapped over all the cells.  Full. *)
+Theorem date_chunk_independent : forall cc off slack tail, 0 <= off ->
+  date_import (map (mk_chunk off slack tail) cc) = bind (map_res date_row (concat cc)) (fun rs => Ok (dt_cols rs)).
+Proof. exact date_chunk_independent_proof. Qed.
+Print Assumptions date_chunk_independent.
+
+Theorem datetime_chunk_independent : forall cc off slack tail, 0 <= off ->
+  datetime_import (map (mk_chunk off slack tail) cc) = bind (map_res datetime_row (concat cc)) (fun rs => Ok (dt_cols rs)).
+Proof. exact datetime_chunk_independent_proof. Qed.
+Print Assumptions datetime_chunk_independent.
+
+(* (b) one cell: strip + datetime.strptime(.., '%Y-%m-%d') + datetime(..., tzinfo=utc).timestamp() + day string
+      against the PRINTERS `date_texts` (YYYY-MM-DD; month and day may drop the leading zero, the day may carry
+      a space for it): blank -> (0, ten NULs, flag 0); a text of a valid civil date -> (UTC midnight of that
+      date in us, first 10 bytes of the text, flag 1); any other text -> ValueError.  `date_cell_spec` is
+      deterministic (next theorem), so this fixes date_row completely.
+      Domain: ASCII cells.  The model is of the code on every byte string (value.decode() as strict UTF-8, `\d` and
+      int() over all decimal digits of Unicode 15.0); outside ASCII the statement is false, see
+      date_unicode_digits_accepted below.  Full on that domain. *)
+Theorem date_cell_table : forall cell, ascii cell = true -> date_cell_spec cell (date_row cell).
+Proof. exact date_cell_table_proof. Qed.
+Print Assumptions date_cell_table.
+
+Theorem date_cell_spec_deterministic : forall cell r1 r2,
+  date_cell_spec cell r1 -> date_cell_spec cell r2 -> r1 = r2.
+Proof. exact date_cell_spec_deterministic_proof. Qed.
+Print Assumptions date_cell_spec_deterministic.
+
+(* (c) the column as its author wrote it: blank cells and valid civil dates printed as YYYY-MM-DD with any
+      white space (bytes.strip()'s set) around them, any chunking and layout: stored timestamps = UTC midnights,
+      day strings = the 10 bytes YYYY-MM-DD (ten NULs for blanks), flags 1 / 0.  Full. *)
+Theorem date_column_roundtrip : forall (dd:list (list dcell)) off slack tail, 0 <= off ->
+  forallb dcell_ok (concat dd) = true ->
+  date_import (map (mk_chunk off slack tail) (map (map dcell_text) dd)) = Ok (dt_cols (map dcell_store (concat dd))).
+Proof. exact date_column_roundtrip_proof. Qed.
+Print Assumptions date_column_roundtrip.
+
+Example date_column_example :
+  let dd := [[DDate [32] 2020 2 29 [9; 10]; DBlank [32; 32]]; []; [DDate [] 1969 12 31 []; DDate [] 9999 12 31 []]] in
+  forallb dcell_ok (concat dd) = true /\
+  map dcell_text (concat dd) = [[32; 50;48;50;48;45;48;50;45;50;57; 9; 10]; [32; 32];
+                                [49;57;54;57;45;49;50;45;51;49]; [57;57;57;57;45;49;50;45;51;49]] /\
+  map (fun x => fst (fst (dcell_store x))) (concat dd) = [1582934400000000; 0; -86400000000; 253402214400000000].
+Proof. vm_compute. repeat split; reflexivity. Qed.
+
+(* (d) invalid texts raise: a column with a cell that is neither blank nor a text of a valid civil date cannot be
+      imported (ValueError), whatever the other cells and the chunking.  Full (ASCII domain as above). *)
+Theorem date_invalid_raises : forall cc cell off slack tail, 0 <= off ->
+  In cell (concat cc) -> ascii cell = true -> strip cell <> [] ->
+  (forall y m d, date_ok y m d = true -> ~ In (strip cell) (date_texts y m d)) ->
+  date_import (map (mk_chunk off slack tail) cc) = Raise E_ValueError.
+Proof. exact date_invalid_raises_proof. Qed.
+Print Assumptions date_invalid_raises.
+
+(* 2020-02-30, 0000-01-01 and 2020-13-01 meet the hypotheses *)
+Example date_invalid_hypotheses_satisfiable :
+  forall cell, In cell [[50;48;50;48;45;48;50;45;51;48]; [48;48;48;48;45;48;49;45;48;49]; [50;48;50;48;45;49;51;45;48;49]] ->
+  ascii cell = true /\ strip cell <> [] /\
+  forall y m d, date_ok y m d = true -> ~ In (strip cell) (date_texts y m d).
+Proof.
+  intros cell [<-|[<-|[<-|[]]]]; (split; [reflexivity|]); apply date_bad_of_run; vm_compute; reflexivity.
+Qed.
+
+(* outside the ASCII domain: '\u0662\u0660\u0662\u0660-01-05' (Arabic-Indic year digits, UTF-8) is no printing of
+   any date in `date_texts`, yet strptime's \d and int() read it: it is imported as 2020-01-05 and the day string
+   is the first 10 bytes of the UTF-8 text.  (Replayed on the real code: same result.  Not a defect of the
+   property: the stored instant is the one the text denotes.) *)
+Theorem date_unicode_digits_accepted :
+  exists cell, ascii cell = false /\ (forall y m d, ~ In (strip cell) (date_texts y m d)) /\
+    date_row cell = Ok (midnight_us 2020 1 5, firstn 10 cell, 1).
+Proof. exists arabic_indic_2020_01_05. exact date_unicode_digits. Qed.
+Print Assumptions date_unicode_digits_accepted.
+
+(* (e) what midnight_us counts: 0 at 1970-01-01 and 86400 s more for every next civil day (month lengths, leap
+      years), i.e. the UTC POSIX timestamp of the date's midnight *)
+Theorem midnight_next_day : forall y m d, date_ok y m d = true ->
+  let '(y', m', d') := next_day y m d in midnight_us y' m' d' = midnight_us y m d + 86400 * 1000000.
+Proof. exact midnight_next_day_proof. Qed.
+Print Assumptions midnight_next_day.
+
+Theorem midnight_epoch_zero : midnight_us 1970 1 1 = 0.
+Proof. exact midnight_epoch. Qed.
+Print Assumptions midnight_epoch_zero.
